@@ -154,7 +154,18 @@ func rulesC11(c *Ctx) {
 			}
 		}
 	}
-	c.Check(okProv, "C11.NOREWRITE", "(*ast.ToBoltListener).VisitTerminal: STRING", p.Pos(vt.Pos()), "the constant's value is exactly decoder(token text): nothing else rewrites it", "the STRING token text does not flow through a single decoder call into StringConstNode.value")
+	provText := "the constant's value is exactly decoder(token text): nothing else rewrites it"
+	if !okProv {
+		// wherever the STRING case is written (a dispatch table, a handler built by a factory, a method of the
+		// listener handed the text): decided by running VisitTerminal for the STRING token with a given token
+		// text and looking at the constant it pushes
+		if okD, decided := c11StringTokenDecided(c, vt, want); decided {
+			okProv = okD
+			provText = "running VisitTerminal for a STRING token pushes a string constant whose value is the decoded token text (decided for three token texts)"
+			decoder = p.SSAFunc(p.Func("zitiql", "ParseZqlString"))
+		}
+	}
+	c.Check(okProv, "C11.NOREWRITE", "(*ast.ToBoltListener).VisitTerminal: STRING", p.Pos(vt.Pos()), provText, "the STRING token text does not flow through a single decoder call into StringConstNode.value")
 	if decoder == nil {
 		return
 	}
@@ -488,6 +499,57 @@ func ruleC11Verbatim(c *Ctx) {
 	n := 0
 	var verbatim func(fn *ssa.Function, v ssa.Value, depth int) (bool, string)
 	verbatim = func(fn *ssa.Function, v ssa.Value, depth int) (bool, string) {
+		// the text travelling in a field of a parameter object (a request struct handed in by pointer): what
+		// every caller put into that field
+		if f, base := loadedField(v); f != nil && depth <= 5 {
+			if bp, isBP := base.(*ssa.Parameter); isBP {
+				bidx := -1
+				for i, q := range fn.Params {
+					if q == bp {
+						bidx = i
+					}
+				}
+				nCallers := 0
+				for _, caller := range cg.callers[fn] {
+					if strings.HasPrefix(caller.Name(), "zzControl") {
+						continue
+					}
+					for _, call := range callsIn(caller) {
+						if call.Common().StaticCallee() != fn || bidx < 0 || bidx >= len(call.Common().Args) {
+							continue
+						}
+						nCallers++
+						al, isAl := call.Common().Args[bidx].(*ssa.Alloc)
+						if !isAl {
+							return false, FnName(caller) + " hands over a request object it did not build itself"
+						}
+						var stored ssa.Value
+						ns := 0
+						for _, r := range *al.Referrers() {
+							if fa, isFA := r.(*ssa.FieldAddr); isFA {
+								if ff, _ := fieldOfAddr(fa); sameVar(ff, f) {
+									for _, r2 := range *fa.Referrers() {
+										if st, isSt := r2.(*ssa.Store); isSt && st.Addr == ssa.Value(fa) {
+											ns++
+											stored = st.Val
+										}
+									}
+								}
+							}
+						}
+						if ns != 1 {
+							return false, FnName(caller) + " does not set the text of the request exactly once"
+						}
+						if ok, why := verbatim(caller, stored, depth+1); !ok {
+							return false, why
+						}
+					}
+				}
+				if nCallers > 0 {
+					return true, ""
+				}
+			}
+		}
 		prm, isParam := v.(*ssa.Parameter)
 		if !isParam {
 			return false, FnName(fn) + " passes " + describeValue(v) + " instead of the text it was given"
@@ -1087,4 +1149,78 @@ func c11ConstProp(decoder *ssa.Function, want map[string]string) (decided bool, 
 		return false, ""
 	}
 	return checked > 0, bad
+}
+
+// c11StringTokenDecided runs VisitTerminal for the STRING token with a few token texts and compares the value of
+// the string constant it pushes with the single-pass reading of the escape table.
+func c11StringTokenDecided(c *Ctx, vt *ssa.Function, want map[string]string) (ok bool, decided bool) {
+	p := c.P
+	push := p.Method("ast", "ToBoltListener", "pushStack")
+	strConst := p.Named("ast", "StringConstNode")
+	tok := constInt(p.Obj("zitiql", "ZitiQlLexerSTRING"))
+	valueIdx := ".f?"
+	if st, isSt := strConst.Underlying().(*types.Struct); isSt {
+		for i := 0; i < st.NumFields(); i++ {
+			if st.Field(i).Name() == "value" {
+				valueIdx = fmt.Sprintf(".f%d", i)
+			}
+		}
+	}
+	type sample struct{ raw, val string }
+	samples := []sample{{"plain text", "plain text"}, {" spaced  ", " spaced  "}}
+	var keys []string
+	for k := range want {
+		keys = append(keys, k)
+	}
+	sort.Strings(keys)
+	raw, val := "x", "x"
+	for _, k := range keys {
+		raw += k + "n"
+		val += want[k] + "n"
+	}
+	samples = append(samples, sample{raw, val})
+	ok = true
+	for _, sm := range samples {
+		text := `"` + sm.raw + `"`
+		oracle := func(v ssa.Value) (AV, bool) {
+			if call, isCall := v.(*ssa.Call); isCall {
+				switch {
+				case invokeNamed(call, "GetTokenType"):
+					return avInt(tok), true
+				case invokeNamed(call, "GetText"):
+					return avStr(text), true
+				case invokeNamed(call, "HasError"):
+					return avBool(false), true
+				}
+				if cal, _ := calleeOf(call.Common()); cal != nil && cal.Name() == "HasError" {
+					return avBool(false), true
+				}
+			}
+			if u, isU := v.(*ssa.UnOp); isU && u.Op == token.MUL {
+				if f, base := loadedField(u); f != nil && base == ssa.Value(vt.Params[0]) {
+					if bt, isB := f.Type().Underlying().(*types.Basic); isB && bt.Kind() == types.Bool {
+						return avBool(false), true
+					}
+				}
+			}
+			return AV{}, false
+		}
+		evs, err := DecideCalls(vt, oracle, func(ci ssa.CallInstruction) bool { return isCallTo(ci, push) })
+		if err != "" || len(evs) != 1 {
+			return false, false
+		}
+		ev := evs[0]
+		last := len(ev.Args) - 1
+		if last < 0 || ev.ArgTypes[last] == nil || namedOf(ev.ArgTypes[last]) != strConst {
+			return false, false
+		}
+		got, isS := avString(ev.ArgFields[last][valueIdx])
+		if !isS {
+			return false, false
+		}
+		if got != sm.val {
+			ok = false
+		}
+	}
+	return ok, true
 }
